@@ -587,7 +587,8 @@ const META: Meta = Meta {
 
 pub fn run(env: &Env, replay: Option<&Path>) -> i32 {
     let mut report = Report::new();
-    let subs: [&dyn DynSub; 7] = [&BitFlip, &History, &Repeat, &ProcessHistory, &ApiHistory, &RelatedSeeds, &Environment];
+    let cold = crate::coldstart::ColdStart("C15");
+    let subs: [&dyn DynSub; 8] = [&BitFlip, &History, &Repeat, &ProcessHistory, &ApiHistory, &RelatedSeeds, &Environment, &cold];
     if let Some(p) = replay {
         if let Err(e) = replay_file(env, &subs, p, &mut report) {
             eprintln!("harness: {}", e);
@@ -650,6 +651,9 @@ pub fn run(env: &Env, replay: Option<&Path>) -> i32 {
     let covered: Vec<usize> = (0..256).filter(|b| report.stats.counters.contains_key(&format!("bit_position_covered_{:03}", b))).collect();
     report.extra.insert("seed_bit_positions_covered".into(), json!(covered.len()));
     report.stats.counters.retain(|k, _| !k.starts_with("bit_position_covered_"));
+    // fresh processes whose threads make their first calls at the same moment
+    report.notes.push(crate::coldstart::NOTE.to_string());
+    drive(env, &cold, env.tier.pick(4, 100), &mut report);
     finish(env, report, &META)
 }
 
